@@ -498,6 +498,14 @@ func TestC02Env(t *testing.T) {
 				out = pick(ev.Menu, "corrupt:", "lost", "crash", "recv-restart")
 			case "done", "remove", "persist", "sent":
 				out = pick(ev.Menu, "crash")
+			case "sync":
+				// only as a follow-up of a file change: a slow comparison lets a scan run in between
+				for _, dv := range plan {
+					if strings.HasPrefix(dv.Do, "file:") {
+						return pick(ev.Menu, "delay:")
+					}
+				}
+				return nil
 			}
 			if kindOf(ev.Key) == "remove" {
 				// a writer that strikes between the sender's last comparison and the unlink
@@ -506,7 +514,7 @@ func TestC02Env(t *testing.T) {
 			}
 			return append(out, pick(ev.Menu, "file:")...)
 		}, c02Check,
-		"at every Store.Remove and Cache.Done of the sender: the receiver durably holds a validated copy with the hash of the bytes being released, and a positive poll answer asked after the last acknowledgement precedes the release; plans with <= 2 deviations over: poll request refused / answer lost, a corrupted part (validation failure), lost data answer, sender crash at data / poll / done / delete / cache-write / sent-log actions, receiver restart, the source file rewritten (same size) or appended to at any sender action except at the very instant of the unlink; delete on and off, one-shot and daemon; a receiver that delivered an older version of the same name in an earlier run")
+		"at every Store.Remove and Cache.Done of the sender: the receiver durably holds a validated copy with the hash of the bytes being released, and a positive poll answer asked after the last acknowledgement precedes the release; plans with <= 2 deviations over: poll request refused / answer lost, a corrupted part (validation failure), lost data answer, sender crash at data / poll / done / delete / cache-write / sent-log actions, receiver restart, the source file rewritten (same size) or appended to at any sender action except at the very instant of the unlink, followed by a slow (45 s) comparison of a file with its cache entry; delete on and off, one-shot and daemon; a receiver that delivered an older version of the same name in an earlier run")
 }
 
 // c16Drained: everything the scans found was transmitted completely and polled to a verdict;
